@@ -58,7 +58,13 @@ def one_case(rep, cs, seed, i):
     rep.count("semiring:" + sem)
     scope = sorted(sc.scope._set)
     ys = gen.sample_inputs(rng, g.doms, scope, 2, exhaustive_limit=0, nonneg=(sem == "lse-sum"))
-    leaves = [p for p in tensor_leaves([sc]) if p.learnable]
+    # some tensors are frozen (learnable=False): learnable and frozen tensors of equal shape must stay apart under folding
+    allt = tensor_leaves([sc])
+    if len(allt) >= 2 and rng.random() < 0.4:
+        for p_ in rng.sample(allt, rng.randint(1, len(allt) - 1)):
+            p_.learnable = False
+        rep.count("some-frozen")
+    leaves = [p for p in allt if p.learnable]
     if not leaves:
         return
     # tiny but non-zero values (2^-70 of an O(1) value): far below machine epsilon, yet the derivative is O(1).
